@@ -40,9 +40,7 @@ from analysis.props import c11, c10
 nest = c10.mine_nesting(w, 'default') + c10.mine_nesting(World('devcurves'), 'devcurves')
 json.dump(nest, open(os.path.join(facts.VERIF, 'rules', 'nesting.json'), 'w'))
 print('nesting profiles', len(nest))
-ops = c10.mine_ops(w) + c10.mine_ops(World('truncated'), 'truncated')
-json.dump(ops, open(os.path.join(facts.VERIF, 'rules', 'ops.json'), 'w'))
-print('operation profiles', len(ops))
+print('operation / restriction profiles (functions)', c10.write_ops_tables({'default': w, 'truncated': World('truncated'), 'devcurves': World('devcurves')}))
 uc = c11.unchecked_callers(w)
 for k, v in c11.unchecked_callers(World('devcurves')).items():
     uc.setdefault(k, set()).update(v)
@@ -61,3 +59,11 @@ af = dprops.mine_argflow(w)
 json.dump(af, open(os.path.join(facts.VERIF, 'rules', 'argflow.json'), 'w'), indent=1)
 print('looped pairs', len(lp), 'bound-flow triples', len(bf), 'arg-flow triples', len(af))
 print('d4 classes', len(out_d4), 'sites', sum(len(v) for v in out_d4.values()), '; must-call pairs', len(mcs))
+
+gt = dprops.mine_gates(w)
+json.dump(gt, open(os.path.join(facts.VERIF, 'rules', 'gates.json'), 'w'), indent=1)
+print('gates', len(gt))
+
+aff = dprops.mine_argflow_fields(w)
+json.dump(aff, open(os.path.join(facts.VERIF, 'rules', 'argflow_fields.json'), 'w'), indent=1)
+print('field-level arg-flow triples', len(aff))
